@@ -90,14 +90,21 @@ type TimeV struct {
 	ns *Term
 }
 
+// MapV is a reference to a heap object whose single cell holds an immutable
+// MapContent (maps have reference semantics and must follow state merges).
 type MapV struct {
-	m *MapObj
+	obj *Obj // nil = nil map
 }
 
-type MapObj struct {
-	id   int
+type mapEnt struct {
+	present *Term
+	v       Value
+}
+
+// MapContent: concrete string keys, each with a presence guard.
+type MapContent struct {
 	keys []string
-	vals map[string]Value
+	ents map[string]mapEnt
 }
 
 // ---------- strings
@@ -310,10 +317,37 @@ func IteV(c *Term, a, b Value) Value {
 		panic(unsupported("merge of distinct func values"))
 	case *MapV:
 		y := b.(*MapV)
-		if x.m == y.m {
+		if x.obj == y.obj {
 			return x
 		}
 		panic(unsupported("merge of distinct maps"))
+	case *MapContent:
+		y := b.(*MapContent)
+		if x == y {
+			return x
+		}
+		r := &MapContent{ents: map[string]mapEnt{}}
+		for _, k := range x.keys {
+			r.keys = append(r.keys, k)
+		}
+		for _, k := range y.keys {
+			if _, ok := x.ents[k]; !ok {
+				r.keys = append(r.keys, k)
+			}
+		}
+		for _, k := range r.keys {
+			ex, okx := x.ents[k]
+			ey, oky := y.ents[k]
+			switch {
+			case okx && oky:
+				r.ents[k] = mapEnt{Ite(c, ex.present, ey.present), IteV(c, ex.v, ey.v)}
+			case okx:
+				r.ents[k] = mapEnt{And(c, ex.present), ex.v}
+			default:
+				r.ents[k] = mapEnt{And(Not(c), ey.present), ey.v}
+			}
+		}
+		return r
 	}
 	panic(fmt.Sprintf("IteV: unhandled kind %T", a))
 }
